@@ -177,6 +177,13 @@ theorem recognised_is_finite (dec grp : Char) (t : List Char) (n : Num) (h : par
       exact hok.2
     · cases h
 
+/-- defect F19f (known finding, found by the oracle): in a month-first locale a four-byte month name
+    in first position is taken for an ISO year: `July-20-2020` is not a date while `March-20-2020` is -/
+theorem F19f_four_byte_month_name_first :
+    (IronCalc.Generated.C19.locales.lookup "en").map
+      (fun l => ((parseDate l "July-20-2020".toList).isSome, (parseDate l "March-20-2020".toList).isSome))
+    = some (false, true) := by decide +kernel
+
 /-! ### non-vacuity and the decided witnesses -/
 
 /-- `-$1,234.5e-3` (en) is recognised, strictly grouped, negative, scientific -/
